@@ -198,8 +198,9 @@ func drawC02(t *rapid.T) C02Case {
 	sc := gen.DrawScenario(t, cfg, gen.SmallProfile)
 	c := C02Case{Token: sc.Token, Authz: sc.Authz, RootSeed: rapid.Uint64Range(1, 1<<20).Draw(t, "root"), Reload: rapid.Bool().Draw(t, "reload")}
 	c.B = sc.Schema.DrawAdversarialBlock(t, sc.Token, sc.Authz, false)
-	if rapid.IntRange(0, 3).Draw(t, "wire") == 0 {
-		c.Wire = rapid.SampledFrom(c02Tricks).Draw(t, "trick")
+	if rapid.IntRange(0, 2).Draw(t, "wire") == 0 {
+		// the table tricks an implementation is most likely to trip over are drawn more often
+		c.Wire = rapid.SampledFrom(append([]string{"redeclare-authority-symbols", "redeclare-authority-symbols", "shifted-indexes"}, c02Tricks...)).Draw(t, "trick")
 	}
 	return c
 }
@@ -207,7 +208,7 @@ func drawC02(t *rapid.T) C02Case {
 func TestC02(t *testing.T) {
 	rec := obs.New("C02")
 	defer rec.Flush(true)
-	rec.SetExtra("rule", "rapid: goal-directed scenario (token with 0-2 later blocks, authorizer with checks and ordered policies, tuned so that most parents are refused) plus an adversarial appended block aimed at the refusal reason: ground facts instantiating the body of failing checks and of allow-policy queries, rules deriving them, copies of authority / authorizer facts, request-like facts over default symbols, ill-typed rules, rules with an unbound head variable, extra checks. A quarter of the cases append the block at wire level with the holder's next secret and this package's own writer, with symbol-table tricks (re-declared authority or default symbols, duplicated table, variables in facts, shifted indexes). Oracle: Authorize(T+B)==nil implies Authorize(T)==nil, and the parent verdict equals the reference; the same two statements with the authorizer configuration delivered as a snapshot (SerializePolicies on an authorizer of T, LoadPolicies into authorizers of T and of T+B). Non-trivial = the parent is refused and a (wrong) model in which the appended facts and rules were authority-level would allow; distinct by (token, authorizer, block, mode).")
+	rec.SetExtra("rule", "rapid: goal-directed scenario (token with 0-2 later blocks, authorizer with checks and ordered policies, tuned so that most parents are refused) plus an adversarial appended block aimed at the refusal reason: ground facts instantiating the body of failing checks and of allow-policy queries, rules deriving them, copies of authority / authorizer facts, request-like facts over default symbols, ill-typed rules, rules with an unbound head variable, extra checks. A third of the cases append the block at wire level with the holder's next secret and this package's own writer, with symbol-table tricks (re-declared authority or default symbols, duplicated table, variables in facts, shifted indexes). Oracle: Authorize(T+B)==nil implies Authorize(T)==nil, and the parent verdict equals the reference; the same two statements with the authorizer configuration delivered as a snapshot (SerializePolicies on an authorizer of T, LoadPolicies into authorizers of T and of T+B). Non-trivial = the parent is refused and a (wrong) model in which the appended facts and rules were authority-level would allow; distinct by (token, authorizer, block, mode).")
 	rec.SetExtra("assumptions", []string{"a block the builders or Unmarshal refuse counts as not widening"})
 	harness.RunWith(t, harness.Spec[C02Case]{ID: "C02", Draw: drawC02, Check: checkC02}, rec)
 }
